@@ -145,6 +145,7 @@ type modelGen struct {
 	hasPar  map[string]bool
 	parents map[string][]string // type -> parent types
 	conds   []string
+	gone    string // condition defined by the permissive model only
 	feat    map[string]bool
 	ids     map[string][]string // nil: default vocabulary
 	wide    bool
@@ -245,6 +246,16 @@ func NewCase(r *rand.Rand, name string, opt Options) *Case {
 		}
 		sort.Strings(g.conds)
 	}
+	// a condition that exists only in the permissive (earlier) model: tuples written with it are left
+	// over with a condition the model under test no longer defines
+	if !opt.NoConditions && r.Intn(3) == 0 {
+		for _, i := range r.Perm(len(condTemplates)) {
+			if !contains(g.conds, condTemplates[i].name) {
+				g.gone = condTemplates[i].name
+				break
+			}
+		}
+	}
 	maxDepth := opt.MaxDepth
 	if maxDepth == 0 {
 		maxDepth = 2
@@ -261,6 +272,11 @@ func NewCase(r *rand.Rand, name string, opt Options) *Case {
 				model.Conditions[cn] = condProto(t)
 				perm.Conditions[cn] = condProto(t)
 			}
+		}
+	}
+	for _, t := range condTemplates {
+		if t.name == g.gone {
+			perm.Conditions[g.gone] = condProto(t)
 		}
 	}
 	model.TypeDefinitions = append(model.TypeDefinitions, &openfgav1.TypeDefinition{Type: "user"})
@@ -293,6 +309,9 @@ func NewCase(r *rand.Rand, name string, opt Options) *Case {
 	// permissive model: same types / relation names, every relation [everything]
 	var allRefs []*openfgav1.RelationReference
 	condOpts := append([]string{""}, g.conds...)
+	if g.gone != "" {
+		condOpts = append(condOpts, g.gone)
+	}
 	for _, c := range condOpts {
 		for _, t := range typeOrder {
 			allRefs = append(allRefs, Ref(t, "", false, c), Ref(t, "", true, c))
@@ -672,12 +691,20 @@ func (g *modelGen) genTuples(model *openfgav1.AuthorizationModel) []*openfgav1.T
 				}
 				g.feat["leftover"] = true
 			}
+			if g.gone != "" && g.r.Intn(10) == 0 {
+				cond = g.gone // a condition the model under test does not define any more
+				g.feat["leftover"], g.feat["leftover-gone-condition"] = true, true
+			}
 			add(o, rn, u, cond, g.storedCtx(cond))
 		} else {
 			g.feat["leftover"] = true
 			cond := ""
 			if len(g.conds) > 0 && g.r.Intn(4) == 0 {
 				cond = g.conds[g.r.Intn(len(g.conds))]
+			}
+			if g.gone != "" && g.r.Intn(4) == 0 {
+				cond = g.gone
+				g.feat["leftover-gone-condition"] = true
 			}
 			add(o, rn, anyUser(), cond, g.storedCtx(cond))
 		}
